@@ -31,6 +31,11 @@ func NewAbstractFieldNormalizer(operation *ast.Document, definition *ast.Documen
 
 	mergeInlineFragmentSelections(&walker)
 	inlineSelectionsFromInlineFragments(&walker)
+	// inlining a fragment can put a field with selections next to an identical sibling field
+	// (`f {a} ... on T {f {b}}` -> `f {a} f {b}`): the first merge visitor has already left this
+	// selection set (a revisit re-runs only the visitor that asked for it), so merge once more -
+	// the planner relies on one field per response path
+	mergeInlineFragmentSelections(&walker)
 	deduplicateFields(&walker)
 
 	return normalizer
